@@ -196,7 +196,11 @@ def handleC10 (_op : String) (input impl : Json) : Except String Json := do
         else []
       | _, _ => []
     else []
-  let viol := check "local" c.lb c.la ++ check "remote" c.rb c.ra ++ mergeViol ++
+  -- a fetch that reports success has written every ref its decision chain accepts (also when no
+  -- object had to be transferred)
+  let fetchWrites : List String :=
+    if c.action == "fetch" && !c.failed && !agreeFetch then ["fetch-writes-every-accepted-ref"] else []
+  let viol := check "local" c.lb c.la ++ check "remote" c.rb c.ra ++ mergeViol ++ fetchWrites ++
     (if rejectedReported then [] else ["rejected-updates-are-reported"])
   return reply (Json.str "decisions") (agreeFetch && agreePush) viol.eraseDups
 
